@@ -184,6 +184,25 @@ def outcomes_nodes(outs, cls):
     return res
 
 
+def argument_kind_independence(ctx):
+    """an argument is converted to the parameter type whatever kind of value it is (register, literal, macro result, a
+    forwarded parameter of the enclosing routine ...)"""
+    idx = get_index(ctx.env)
+    # the conversion does not depend on what kind of value the argument is: one instance per value class of the IR
+    arg_classes = sorted(c for c in set(idx.subclasses("Pure")) | set(idx.subclasses("Hybrid")) if c in idx.classes)
+    ctx.need(len(arg_classes) >= 15, f"value classes of the IR: only {len(arg_classes)} found")
+    for cname in arg_classes:
+        r = Runner(idx)
+        boxc = {}
+        def one_arg():
+            a = [r.pure("arg0", vt=vt_case("ta0", True, 32), cls=cname)]
+            boxc["args"] = a
+            return [a, [vt_case("p0", False, 64)]]
+        fi, outs = r.run("cast_arg_list", one_arg, args_list=True)
+        got = sorted({clean(lab(boxc["args"][0]))} if len(outs) == 1 and outs[0].kind != "raise" else {outcome_text(o) for o in outs})
+        ctx.check(f"cast_arg_list argument of class {cname}", got == ["Conv((u,64),arg0)"], "['Conv((u,64),arg0)']", str(got), fn_where(idx, fi))
+
+
 @rule("R03.3", "C03", "every conversion context routes its source through a conversion to the destination type (elision only under type equality)", min_instances=18)
 def r03_3(ctx):
     idx = get_index(ctx.env)
@@ -279,19 +298,7 @@ def r03_3(ctx):
     got = [clean(lab(x)) for x in box["args"]]
     exp = ["Conv((u,64),arg0)", "arg1", "ENUM_STRING", "arg3", "arg4"]
     ctx.check("cast_arg_list per-parameter conversion", got == exp, str(exp), str(got), fn_where(idx, fi))
-    # the conversion does not depend on what kind of value the argument is: one instance per value class of the IR
-    arg_classes = sorted(c for c in set(idx.subclasses("Pure")) | set(idx.subclasses("Hybrid")) if c in idx.classes)
-    ctx.need(len(arg_classes) >= 15, f"value classes of the IR: only {len(arg_classes)} found")
-    for cname in arg_classes:
-        r = Runner(idx)
-        boxc = {}
-        def one_arg():
-            a = [r.pure("arg0", vt=vt_case("ta0", True, 32), cls=cname)]
-            boxc["args"] = a
-            return [a, [vt_case("p0", False, 64)]]
-        fi, outs = r.run("cast_arg_list", one_arg, args_list=True)
-        got = sorted({clean(lab(boxc["args"][0]))} if len(outs) == 1 and outs[0].kind != "raise" else {outcome_text(o) for o in outs})
-        ctx.check(f"cast_arg_list argument of class {cname}", got == ["Conv((u,64),arg0)"], "['Conv((u,64),arg0)']", str(got), fn_where(idx, fi))
+    argument_kind_independence(ctx)
     r = Runner(idx)
     fi, outs = r.run("cast_arg_list", lambda: [[r.pure("arg0", vt=vt_case("ta0", True, 32))], []], args_list=True)
     ctx.check("cast_arg_list count mismatch", all(o.kind == "raise" for o in outs), "raises", " | ".join(outcome_text(o) for o in outs), fn_where(idx, fi))
@@ -400,3 +407,12 @@ def r03_7(ctx):
     from .shared import type_object_mutation
 
     type_object_mutation(ctx)
+
+
+@rule("R03.8", "C03", "destination types of register targets: an assignment keeps the bits of a same-width value only if the register has its architectural width (letter registers, pairs, explicit and alias registers)", min_instances=40)
+def r03_8(ctx):
+    from .c07 import r07_1, r07_7, r07_8
+
+    r07_1(ctx)
+    r07_7(ctx)
+    r07_8(ctx)
